@@ -2,8 +2,10 @@ import FranzVerif.Model.Commit
 import FranzVerif.Proof.Commit
 /-! Helper lemmas for the commit-order monitor (C09): `run` on a concatenation, what an accepted event tells,
 the invariant `Inv h s` relating the state reached by `run` to the history (membership of issue / finish /
-CO / GC events, the harness's offset encoding, `isIncomplete`), the forward inductions for the order of
-arrivals (`wire_sorted`) and for the last successfully answered request (`lastApplied_run`). -/
+CO / GC / topic-deleted events, the harness's offset encoding, `isIncomplete`), the forward inductions for the
+order of arrivals (`wire_sorted`), for the last successfully answered request (`lastApplied_run`) and for the
+tainted set (`taintedAtEnd_run`), and the frame lemmas: an answer for / a taint of partition `p` is not read by
+the observables of any other partition. -/
 namespace Proof.Commit
 open Model.Commit
 
@@ -84,10 +86,10 @@ theorem wireReq_check {s : St} {n part off : Nat} (h : check s (.wireReq n part 
 
 theorem quiesce_check {s : St} (h : check s .quiesce = none) (hinc : s.incomplete = false) :
     (∀ i ∈ s.issued, ∃ f ∈ s.finished, f.1 = i.1) ∧
-    (∀ g ∈ s.gc, (∃ a ∈ s.applied, a.1 = g.1) → g.2 = appliedOf s g.1) ∧
-    (∀ a ∈ s.applied, ∃ g ∈ s.gc, g.1 = a.1) ∧
-    (∀ c ∈ s.co, (∃ a ∈ s.applied, a.1 = c.1) → c.2 = appliedOf s c.1) ∧
-    (∀ a ∈ s.applied, ∃ c ∈ s.co, c.1 = a.1) := by
+    (∀ g ∈ s.gc, judged s g.1 = true → (∃ a ∈ s.applied, a.1 = g.1) → g.2 = appliedOf s g.1) ∧
+    (∀ a ∈ s.applied, judged s a.1 = true → ∃ g ∈ s.gc, g.1 = a.1) ∧
+    (∀ c ∈ s.co, judged s c.1 = true → (∃ a ∈ s.applied, a.1 = c.1) → c.2 = appliedOf s c.1) ∧
+    (∀ a ∈ s.applied, judged s a.1 = true → ∃ c ∈ s.co, c.1 = a.1) := by
   simp only [check, hinc, Bool.false_eq_true, if_false] at h
   split at h
   · cases h
@@ -98,6 +100,8 @@ theorem quiesce_check {s : St} (h : check s .quiesce = none) (hinc : s.incomplet
   split at h
   · cases h
   rename_i c3
+  split at h
+  · cases h
   split at h
   · cases h
   rename_i c4
@@ -114,51 +118,53 @@ theorem quiesce_check {s : St} (h : check s .quiesce = none) (hinc : s.incomplet
     simp only [Bool.not_eq_true', List.any_eq_false, beq_iff_eq]
     intro f hf he
     exact hcon ⟨f, hf, he⟩
-  · rintro g hg ⟨a, ha, he⟩
+  · rintro g hg hj ⟨a, ha, he⟩
     false_or_by_contra
     rename_i hcon
     apply c2
     rw [List.any_eq_true]
     refine ⟨g, hg, ?_⟩
     simp only [Bool.and_eq_true, List.any_eq_true, beq_iff_eq, bne_iff_ne, ne_eq]
-    exact ⟨⟨a, ha, he⟩, hcon⟩
-  · intro a ha
+    exact ⟨⟨hj, a, ha, he⟩, hcon⟩
+  · intro a ha hj
     false_or_by_contra
     rename_i hcon
     apply c3
     rw [List.any_eq_true]
     refine ⟨a, ha, ?_⟩
-    simp only [Bool.not_eq_true', List.any_eq_false, beq_iff_eq]
+    simp only [Bool.and_eq_true, Bool.not_eq_true', List.any_eq_false, beq_iff_eq]
+    refine ⟨hj, ?_⟩
     intro g hg he
     exact hcon ⟨g, hg, he⟩
-  · rintro g hg ⟨a, ha, he⟩
+  · rintro g hg hj ⟨a, ha, he⟩
     false_or_by_contra
     rename_i hcon
     apply c4
     rw [List.any_eq_true]
     refine ⟨g, hg, ?_⟩
     simp only [Bool.and_eq_true, List.any_eq_true, beq_iff_eq, bne_iff_ne, ne_eq]
-    exact ⟨⟨a, ha, he⟩, hcon⟩
-  · intro a ha
+    exact ⟨⟨hj, a, ha, he⟩, hcon⟩
+  · intro a ha hj
     false_or_by_contra
     rename_i hcon
     apply c5
     rw [List.any_eq_true]
     refine ⟨a, ha, ?_⟩
-    simp only [Bool.not_eq_true', List.any_eq_false, beq_iff_eq]
+    simp only [Bool.and_eq_true, Bool.not_eq_true', List.any_eq_false, beq_iff_eq]
+    refine ⟨hj, ?_⟩
     intro g hg he
     exact hcon ⟨g, hg, he⟩
 
 /-! ### fields that an event does not touch -/
 
-/-- an answer changes at most the `applied` map -/
+/-- an answer changes at most the `applied` map and the `tainted` set -/
 theorem apply_wireResp (s : St) (n part : Nat) (err : Int) (f : St → Prop) (h1 : f s)
-    (h2 : ∀ a, f { s with applied := a }) : f (apply s (.wireResp n part err)) := by
+    (h2 : ∀ a t, f { s with applied := a, tainted := t }) : f (apply s (.wireResp n part err)) := by
   simp only [apply]
   split
   · split
-    · exact h2 _
-    · exact h1
+    · exact h2 _ _
+    · exact h2 s.applied _
   · exact h1
 
 /-! ### the invariant -/
@@ -169,6 +175,7 @@ structure Inv (h : List Ev) (s : St) : Prop where
   finished : ∀ f, f ∈ s.finished ↔ Ev.finish f.1 f.2 ∈ h
   gc : ∀ g, g ∈ s.gc ↔ Ev.groupCommitted g.1 g.2 ∈ h
   co : ∀ c, c ∈ s.co ↔ Ev.clientCommitted c.1 c.2 ∈ h
+  gone : ∀ t, t ∈ s.gone ↔ Ev.topicDeleted t ∈ h
   incomplete : s.incomplete = isIncomplete h
 
 theorem Inv.init : Inv [] {} := by
@@ -198,6 +205,10 @@ theorem Inv.co_frame (hi : Inv h s) (e : s'.co = s.co) (o : ∀ p g, ev ≠ .cli
     ∀ c, c ∈ s'.co ↔ Ev.clientCommitted c.1 c.2 ∈ h ++ [ev] := by
   intro g; rw [e, hi.co g, List.mem_append, List.mem_singleton]
   exact ⟨Or.inl, fun h => h.elim id (fun h => absurd h.symm (o _ _))⟩
+theorem Inv.gone_frame (hi : Inv h s) (e : s'.gone = s.gone) (o : ∀ t, ev ≠ .topicDeleted t) :
+    ∀ t, t ∈ s'.gone ↔ Ev.topicDeleted t ∈ h ++ [ev] := by
+  intro t; rw [e, hi.gone t, List.mem_append, List.mem_singleton]
+  exact ⟨Or.inl, fun h => h.elim id (fun h => absurd h.symm (o _))⟩
 theorem Inv.incomplete_frame (hi : Inv h s) (e : s'.incomplete = s.incomplete) (o : ev ≠ .incomplete) :
     s'.incomplete = isIncomplete (h ++ [ev]) := by
   rw [isIncomplete_snoc, e, hi.incomplete]; simp [o]
@@ -209,7 +220,7 @@ theorem Inv.step {h : List Ev} {s : St} (hi : Inv h s) (ev : Ev) (hchk : check s
   cases ev with
   | issue k offs =>
     refine ⟨?_, ?_, hi.finished_frame rfl (by simp), hi.gc_frame rfl (by simp), hi.co_frame rfl (by simp),
-      hi.incomplete_frame rfl (by simp)⟩
+      hi.gone_frame rfl (by simp), hi.incomplete_frame rfl (by simp)⟩
     · intro i
       simp only [apply]
       rw [List.mem_cons, List.mem_append, List.mem_singleton, hi.issued i]
@@ -223,7 +234,7 @@ theorem Inv.step {h : List Ev} {s : St} (hi : Inv h s) (ev : Ev) (hchk : check s
       · exact hi.enc i hi'
   | finish k ok =>
     refine ⟨hi.issued_frame rfl (by simp), hi.enc_frame rfl, ?_, hi.gc_frame rfl (by simp), hi.co_frame rfl (by simp),
-      hi.incomplete_frame rfl (by simp)⟩
+      hi.gone_frame rfl (by simp), hi.incomplete_frame rfl (by simp)⟩
     intro f
     simp only [apply]
     rw [List.mem_cons, List.mem_append, List.mem_singleton, hi.finished f]
@@ -232,17 +243,29 @@ theorem Inv.step {h : List Ev} {s : St} (hi : Inv h s) (ev : Ev) (hchk : check s
     exact ⟨fun h => h.elim Or.inr Or.inl, fun h => h.elim Or.inr Or.inl⟩
   | wireReq n part off =>
     exact ⟨hi.issued_frame rfl (by simp), hi.enc_frame rfl, hi.finished_frame rfl (by simp), hi.gc_frame rfl (by simp),
-      hi.co_frame rfl (by simp), hi.incomplete_frame rfl (by simp)⟩
+      hi.co_frame rfl (by simp), hi.gone_frame rfl (by simp), hi.incomplete_frame rfl (by simp)⟩
   | wireResp n part err =>
-    exact ⟨hi.issued_frame (apply_wireResp s n part err (·.issued = s.issued) rfl (fun _ => rfl)) (by simp),
-      hi.enc_frame (apply_wireResp s n part err (·.issued = s.issued) rfl (fun _ => rfl)),
-      hi.finished_frame (apply_wireResp s n part err (·.finished = s.finished) rfl (fun _ => rfl)) (by simp),
-      hi.gc_frame (apply_wireResp s n part err (·.gc = s.gc) rfl (fun _ => rfl)) (by simp),
-      hi.co_frame (apply_wireResp s n part err (·.co = s.co) rfl (fun _ => rfl)) (by simp),
-      hi.incomplete_frame (apply_wireResp s n part err (·.incomplete = s.incomplete) rfl (fun _ => rfl)) (by simp)⟩
+    exact ⟨hi.issued_frame (apply_wireResp s n part err (·.issued = s.issued) rfl (fun _ _ => rfl)) (by simp),
+      hi.enc_frame (apply_wireResp s n part err (·.issued = s.issued) rfl (fun _ _ => rfl)),
+      hi.finished_frame (apply_wireResp s n part err (·.finished = s.finished) rfl (fun _ _ => rfl)) (by simp),
+      hi.gc_frame (apply_wireResp s n part err (·.gc = s.gc) rfl (fun _ _ => rfl)) (by simp),
+      hi.co_frame (apply_wireResp s n part err (·.co = s.co) rfl (fun _ _ => rfl)) (by simp),
+      hi.gone_frame (apply_wireResp s n part err (·.gone = s.gone) rfl (fun _ _ => rfl)) (by simp),
+      hi.incomplete_frame (apply_wireResp s n part err (·.incomplete = s.incomplete) rfl (fun _ _ => rfl)) (by simp)⟩
+  | taint part =>
+    exact ⟨hi.issued_frame rfl (by simp), hi.enc_frame rfl, hi.finished_frame rfl (by simp), hi.gc_frame rfl (by simp),
+      hi.co_frame rfl (by simp), hi.gone_frame rfl (by simp), hi.incomplete_frame rfl (by simp)⟩
+  | topicDeleted t =>
+    refine ⟨hi.issued_frame rfl (by simp), hi.enc_frame rfl, hi.finished_frame rfl (by simp), hi.gc_frame rfl (by simp),
+      hi.co_frame rfl (by simp), ?_, hi.incomplete_frame rfl (by simp)⟩
+    intro u
+    simp only [apply]
+    rw [List.mem_cons, List.mem_append, List.mem_singleton, hi.gone u]
+    simp only [Ev.topicDeleted.injEq]
+    exact ⟨fun h => h.elim Or.inr Or.inl, fun h => h.elim Or.inr Or.inl⟩
   | clientCommitted part off =>
     refine ⟨hi.issued_frame rfl (by simp), hi.enc_frame rfl, hi.finished_frame rfl (by simp), hi.gc_frame rfl (by simp),
-      ?_, hi.incomplete_frame rfl (by simp)⟩
+      ?_, hi.gone_frame rfl (by simp), hi.incomplete_frame rfl (by simp)⟩
     intro f
     simp only [apply]
     rw [List.mem_cons, List.mem_append, List.mem_singleton, hi.co f]
@@ -251,7 +274,7 @@ theorem Inv.step {h : List Ev} {s : St} (hi : Inv h s) (ev : Ev) (hchk : check s
     exact ⟨fun h => h.elim Or.inr Or.inl, fun h => h.elim Or.inr Or.inl⟩
   | groupCommitted part off =>
     refine ⟨hi.issued_frame rfl (by simp), hi.enc_frame rfl, hi.finished_frame rfl (by simp), ?_,
-      hi.co_frame rfl (by simp), hi.incomplete_frame rfl (by simp)⟩
+      hi.co_frame rfl (by simp), hi.gone_frame rfl (by simp), hi.incomplete_frame rfl (by simp)⟩
     intro f
     simp only [apply]
     rw [List.mem_cons, List.mem_append, List.mem_singleton, hi.gc f]
@@ -260,11 +283,11 @@ theorem Inv.step {h : List Ev} {s : St} (hi : Inv h s) (ev : Ev) (hchk : check s
     exact ⟨fun h => h.elim Or.inr Or.inl, fun h => h.elim Or.inr Or.inl⟩
   | incomplete =>
     refine ⟨hi.issued_frame rfl (by simp), hi.enc_frame rfl, hi.finished_frame rfl (by simp), hi.gc_frame rfl (by simp),
-      hi.co_frame rfl (by simp), ?_⟩
+      hi.co_frame rfl (by simp), hi.gone_frame rfl (by simp), ?_⟩
     simp [isIncomplete_snoc, apply]
   | quiesce =>
     exact ⟨hi.issued_frame rfl (by simp), hi.enc_frame rfl, hi.finished_frame rfl (by simp), hi.gc_frame rfl (by simp),
-      hi.co_frame rfl (by simp), hi.incomplete_frame rfl (by simp)⟩
+      hi.co_frame rfl (by simp), hi.gone_frame rfl (by simp), hi.incomplete_frame rfl (by simp)⟩
 
 theorem Inv.run {h₁ : List Ev} {s s' : St} (hi : Inv h₁ s) (h₂ : List Ev) (hr : Model.Commit.run s h₂ = some s') :
     Inv (h₁ ++ h₂) s' := by
@@ -312,10 +335,12 @@ theorem wire_sorted {h : List Ev} {s s' : St} (hr : run s h = some s') :
     | wireResp n part err =>
       have hw : wireOffsets (Ev.wireResp n part err :: es) = wireOffsets es := rfl
       have hmax : (apply s (.wireResp n part err)).maxWire = s.maxWire :=
-        apply_wireResp s n part err (·.maxWire = s.maxWire) rfl (fun _ => rfl)
+        apply_wireResp s n part err (·.maxWire = s.maxWire) rfl (fun _ _ => rfl)
       rw [hw]; rw [hmax] at ih1; exact ⟨ih1, ih2⟩
     | issue k offs => exact ⟨ih1, ih2⟩
     | finish k ok => exact ⟨ih1, ih2⟩
+    | taint p => exact ⟨ih1, ih2⟩
+    | topicDeleted t => exact ⟨ih1, ih2⟩
     | clientCommitted p o => exact ⟨ih1, ih2⟩
     | groupCommitted p o => exact ⟨ih1, ih2⟩
     | incomplete => exact ⟨ih1, ih2⟩
@@ -365,6 +390,8 @@ theorem lastApplied_go_run (p : Nat) {h : List Ev} {s s' : St} (hr : run s h = s
     | wireReq n q off => simp only [lastApplied.go]; exact ih'
     | issue k offs => simp only [lastApplied.go]; exact ih'
     | finish k ok => simp only [lastApplied.go]; exact ih'
+    | taint q => simp only [lastApplied.go]; exact ih'
+    | topicDeleted t => simp only [lastApplied.go]; exact ih'
     | clientCommitted q o => simp only [lastApplied.go]; exact ih'
     | groupCommitted q o => simp only [lastApplied.go]; exact ih'
     | incomplete => simp only [lastApplied.go]; exact ih'
@@ -378,7 +405,7 @@ theorem lastApplied_go_run (p : Nat) {h : List Ev} {s s' : St} (hr : run s h = s
           simp only [beq_self_eq_true, Bool.and_self, if_true]
           simp only [apply, beq_self_eq_true, if_true] at ih'
           cases hf : s.wire.find? (fun w => w.1 == n && w.2.1 == q) with
-          | none => simpa only [hf] using ih'
+          | none => simpa only [hf, curOf] using ih'
           | some w =>
             obtain ⟨w1, w2, w3⟩ := w
             simp only [hf] at ih' ⊢
@@ -387,11 +414,11 @@ theorem lastApplied_go_run (p : Nat) {h : List Ev} {s s' : St} (hr : run s h = s
           simp only [hqp, Bool.false_and, Bool.false_eq_true, if_false]
           simp only [apply, beq_self_eq_true, if_true] at ih'
           cases hf : s.wire.find? (fun w => w.1 == n && w.2.1 == q) with
-          | none => simpa only [hf] using ih'
+          | none => simpa only [hf, curOf] using ih'
           | some w =>
             obtain ⟨w1, w2, w3⟩ := w
             simp only [hf] at ih'
-            have hc : curOf { s with applied := (q, w3) :: s.applied.filter (·.1 != q) } p = curOf s p := by
+            have hc : curOf { s with applied := (q, w3) :: s.applied.filter (·.1 != q), tainted := s.tainted.filter (· != q) } p = curOf s p := by
               simp only [curOf, List.find?_cons, hqp]
               rw [find_applied_ne _ _ _ (fun h => hq h.symm)]
             rw [hc] at ih'
@@ -404,5 +431,161 @@ theorem lastApplied_go_run (p : Nat) {h : List Ev} {s s' : St} (hr : run s h = s
 theorem lastApplied_run {p : Nat} {h : List Ev} {s : St} (hr : run {} h = some s) : curOf s p = lastApplied p h := by
   have := lastApplied_go_run p hr
   exact this.symm
+
+/-! ### tainted partitions and deleted topics -/
+
+theorem contains_filter_ne_other (l : List Nat) (p q : Nat) (hne : q ≠ p) :
+    (l.filter (· != q)).contains p = l.contains p := by
+  have : ¬ p = q := fun e => hne e.symm
+  simp [List.mem_filter, this]
+
+/-- `taintedAtEnd`'s scan and the monitor's `tainted` set move in step -/
+theorem taintedAtEnd_go_run (p : Nat) {h : List Ev} {s s' : St} (hr : run s h = some s') :
+    taintedAtEnd.go p (s.tainted.contains p) h = s'.tainted.contains p := by
+  induction h generalizing s with
+  | nil => simp [run] at hr; subst hr; rfl
+  | cons e es ih =>
+    obtain ⟨_, hr'⟩ := run_cons hr
+    have ih' := ih hr'
+    cases e with
+    | wireReq n q off => simp only [taintedAtEnd.go]; exact ih'
+    | issue k offs => simp only [taintedAtEnd.go]; exact ih'
+    | finish k ok => simp only [taintedAtEnd.go]; exact ih'
+    | clientCommitted q o => simp only [taintedAtEnd.go]; exact ih'
+    | groupCommitted q o => simp only [taintedAtEnd.go]; exact ih'
+    | incomplete => simp only [taintedAtEnd.go]; exact ih'
+    | quiesce => simp only [taintedAtEnd.go]; exact ih'
+    | topicDeleted t => simp only [taintedAtEnd.go]; exact ih'
+    | taint q =>
+      simp only [taintedAtEnd.go]
+      have : (apply s (.taint q)).tainted.contains p = (s.tainted.contains p || q == p) := by
+        by_cases hqp : q = p
+        · subst hqp; simp [apply]
+        · have : ¬ p = q := fun e => hqp e.symm
+          simp [apply, hqp, this]
+      rw [this] at ih'
+      exact ih'
+    | wireResp n q err =>
+      simp only [taintedAtEnd.go]
+      have : (apply s (.wireResp n q err)).tainted.contains p = (s.tainted.contains p && !(q == p && err == 0)) := by
+        by_cases herr : err = 0
+        · subst herr
+          by_cases hq : q = p
+          · subst hq
+            simp only [apply, beq_self_eq_true, if_true]
+            split <;> simp
+          · have hqp : (q == p) = false := by simpa using hq
+            simp only [apply, beq_self_eq_true, if_true, hqp, Bool.not_false, Bool.and_true]
+            split <;> simp only [contains_filter_ne_other _ _ _ hq]
+        · have he : (err == 0) = false := by simpa using herr
+          simp [apply, he]
+      rw [this] at ih'
+      exact ih'
+
+theorem taintedAtEnd_run {p : Nat} {h : List Ev} {s : St} (hr : run {} h = some s) :
+    s.tainted.contains p = taintedAtEnd p h := by
+  have := taintedAtEnd_go_run p hr
+  exact this.symm
+
+theorem judged_of {h : List Ev} {s : St} (hr : run {} h = some s) {p : Nat}
+    (hnt : taintedAtEnd p h = false) (hnd : topicDeleted (topicOf p) h = false) : judged s p = true := by
+  have hi := inv_of_run hr
+  have h1 : s.tainted.contains p = false := by rw [taintedAtEnd_run hr]; exact hnt
+  have h2 : s.gone.contains (topicOf p) = false := by
+    cases hc : s.gone.contains (topicOf p) with
+    | false => rfl
+    | true =>
+      have hm : topicOf p ∈ s.gone := by simpa using hc
+      have := (hi.gone _).1 hm
+      have : topicDeleted (topicOf p) h = true := by
+        simp only [topicDeleted, List.any_eq_true]
+        exact ⟨_, this, by simp⟩
+      rw [hnd] at this; cases this
+  have h1' : p ∉ s.tainted := by simpa using h1
+  have h2' : topicOf p ∉ s.gone := by simpa using h2
+  simp [judged, h1', h2']
+
+/-! ### what is required of a partition does not depend on the answers given to the other partitions -/
+
+/-- is `e` an event about partition `p` alone that `lastApplied q` / `taintedAtEnd q` (q ≠ p) do not read: an
+answer for `p` (any code) or a taint of `p` -/
+def aboutOnly (p : Nat) : Ev → Bool
+  | .wireResp _ q _ => q == p
+  | .taint q => q == p
+  | _ => false
+
+theorem lastApplied_go_frame (q p : Nat) (hne : p ≠ q) (e : Ev) (he : aboutOnly p e = true) (h₁ h₂ : List Ev)
+    (reqs : List (Nat × Nat × Nat)) (cur : Option Nat) :
+    lastApplied.go q reqs cur (h₁ ++ e :: h₂) = lastApplied.go q reqs cur (h₁ ++ h₂) := by
+  induction h₁ generalizing reqs cur with
+  | nil =>
+    cases e with
+    | wireResp n r err =>
+      have hr : r = p := by simpa [aboutOnly] using he
+      subst hr
+      have : (r == q) = false := by simpa using hne
+      simp [lastApplied.go, this]
+    | taint r => simp [lastApplied.go]
+    | issue k offs => simp [aboutOnly] at he
+    | finish k ok => simp [aboutOnly] at he
+    | wireReq n r off => simp [aboutOnly] at he
+    | topicDeleted t => simp [aboutOnly] at he
+    | clientCommitted r o => simp [aboutOnly] at he
+    | groupCommitted r o => simp [aboutOnly] at he
+    | incomplete => simp [aboutOnly] at he
+    | quiesce => simp [aboutOnly] at he
+  | cons a as ih =>
+    cases a with
+    | wireResp n r err =>
+      simp only [List.cons_append, lastApplied.go]
+      split
+      · split <;> exact ih _ _
+      · exact ih _ _
+    | wireReq n r off => simp only [List.cons_append, lastApplied.go]; exact ih _ _
+    | taint r => simp only [List.cons_append, lastApplied.go]; exact ih _ _
+    | issue k offs => simp only [List.cons_append, lastApplied.go]; exact ih _ _
+    | finish k ok => simp only [List.cons_append, lastApplied.go]; exact ih _ _
+    | topicDeleted t => simp only [List.cons_append, lastApplied.go]; exact ih _ _
+    | clientCommitted r o => simp only [List.cons_append, lastApplied.go]; exact ih _ _
+    | groupCommitted r o => simp only [List.cons_append, lastApplied.go]; exact ih _ _
+    | incomplete => simp only [List.cons_append, lastApplied.go]; exact ih _ _
+    | quiesce => simp only [List.cons_append, lastApplied.go]; exact ih _ _
+
+theorem taintedAtEnd_go_frame (q p : Nat) (hne : p ≠ q) (e : Ev) (he : aboutOnly p e = true) (h₁ h₂ : List Ev)
+    (cur : Bool) :
+    taintedAtEnd.go q cur (h₁ ++ e :: h₂) = taintedAtEnd.go q cur (h₁ ++ h₂) := by
+  induction h₁ generalizing cur with
+  | nil =>
+    cases e with
+    | wireResp n r err =>
+      have hr : r = p := by simpa [aboutOnly] using he
+      subst hr
+      have : (r == q) = false := by simpa using hne
+      simp [taintedAtEnd.go, this]
+    | taint r =>
+      have hr : r = p := by simpa [aboutOnly] using he
+      subst hr
+      have : (r == q) = false := by simpa using hne
+      simp [taintedAtEnd.go, this]
+    | issue k offs => simp [aboutOnly] at he
+    | finish k ok => simp [aboutOnly] at he
+    | wireReq n r off => simp [aboutOnly] at he
+    | topicDeleted t => simp [aboutOnly] at he
+    | clientCommitted r o => simp [aboutOnly] at he
+    | groupCommitted r o => simp [aboutOnly] at he
+    | incomplete => simp [aboutOnly] at he
+    | quiesce => simp [aboutOnly] at he
+  | cons a as ih =>
+    cases a with
+    | wireResp n r err => simp only [List.cons_append, taintedAtEnd.go]; exact ih _
+    | wireReq n r off => simp only [List.cons_append, taintedAtEnd.go]; exact ih _
+    | taint r => simp only [List.cons_append, taintedAtEnd.go]; exact ih _
+    | issue k offs => simp only [List.cons_append, taintedAtEnd.go]; exact ih _
+    | finish k ok => simp only [List.cons_append, taintedAtEnd.go]; exact ih _
+    | topicDeleted t => simp only [List.cons_append, taintedAtEnd.go]; exact ih _
+    | clientCommitted r o => simp only [List.cons_append, taintedAtEnd.go]; exact ih _
+    | groupCommitted r o => simp only [List.cons_append, taintedAtEnd.go]; exact ih _
+    | incomplete => simp only [List.cons_append, taintedAtEnd.go]; exact ih _
+    | quiesce => simp only [List.cons_append, taintedAtEnd.go]; exact ih _
 
 end Proof.Commit
